@@ -233,6 +233,9 @@ func c06Run(c c06Case) []*core.Violation {
 			ignoreInvalid(op.Hdr, op.Addrs, false)
 		case "fromstring":
 			joined := strings.Join(texts(op.Addrs), ", ")
+			if len(op.Addrs) == 0 {
+				joined = " , "
+			}
 			switch op.Hdr {
 			case "to":
 				err = m.ToFromString(joined)
@@ -476,6 +479,10 @@ func c06Gen(t *rapid.T) c06Case {
 		cnt := 1
 		if !single && kind != "reset" {
 			cnt = rapid.IntRange(1, 4).Draw(t, "naddrs")
+			// calling a list setter with no address at all clears the list (one call in eight)
+			if (kind == "set" || kind == "fromstring" || kind == "setaddrheader" || kind == "ignoreinvalid") && op.Hdr != "from" && op.Hdr != "env" && op.Hdr != "replyto" && rapid.IntRange(0, 7).Draw(t, "emptylist") == 0 {
+				cnt = 0
+			}
 			if kind == "setaddrheader" && (op.Hdr == "env" || op.Hdr == "replyto") {
 				cnt = 1
 			}
@@ -501,7 +508,7 @@ func c06Gen(t *rapid.T) c06Case {
 
 func TestC06(t *testing.T) {
 	rec := core.Rec("C06")
-	rec.Rule = "rapid draws a sequence of 2..12 address-setting calls over To/Cc/Bcc/From/EnvelopeFrom/ReplyTo: strict setters (To, Cc, Bcc, From, EnvelopeFrom, ReplyTo, SetAddrHeader), Add*, *Format, *IgnoreInvalid, *FromString, SetAddrHeaderIgnoreInvalid and Reset, with display names that need quoting or RFC 2047 encoding, duplicates, and invalid entries mixed in (one in six). Bcc mailboxes are unique tokens. " +
+	rec.Rule = "rapid draws a sequence of 2..12 address-setting calls (list setters also with an empty argument list, which clears the list) over To/Cc/Bcc/From/EnvelopeFrom/ReplyTo: strict setters (To, Cc, Bcc, From, EnvelopeFrom, ReplyTo, SetAddrHeader), Add*, *Format, *IgnoreInvalid, *FromString, SetAddrHeaderIgnoreInvalid and Reset, with display names that need quoting or RFC 2047 encoding, duplicates, and invalid entries mixed in (one in six). Bcc mailboxes are unique tokens. " +
 		"A model keeps the expected lists (replace vs append, all-or-nothing for strict setters, From keeps the first, IgnoreInvalid = subsequence of the valid inputs containing every valid ASCII-named input). The message is then rendered and sent with DialAndSend to the reference server. " +
 		"Oracle: setter verdicts match validity; envelope sender = envelope-from if set else From; RCPT sequence == To ++ Cc ++ Bcc in order, one per occurrence; no Bcc token in the rendered or transmitted bytes, raw or after decoding every header (RFC 2047) and leaf (QP/base64); no Bcc field; From (or envelope-from), To, Cc, Reply-To occur once and parse (own RFC 5322 parser) to the model's names and mailboxes. " +
 		"Non-trivial: >= 1 Bcc in the final model and >= 2 calls on the same list. Distinct by the call-kind sequence."
